@@ -57,45 +57,15 @@ def o3(ctx: Ctx):
     gs = P.own_method("SproutMechanism", "get_seeds")
     sn = gs.self_name()
     tree_p = gs.params()[1]
-    # straight-line def chain of `candidates`
-    chain = []
-    for st in gs.node.body:
-        if isinstance(st, ast.Assign) and len(st.targets) == 1 and isinstance(st.targets[0], ast.Name) and isinstance(st.value, ast.Call):
-            chain.append((st.targets[0].id, st.value, st))
-    cand_steps = [(n, v, st) for n, v, st in chain if norm(v.func) in (f"{sn}.candidates_generator", f"{sn}.apply_deme_filters", f"{sn}.apply_tree_filters")]
-    order = [norm(v.func).split(".")[-1] for _, v, _ in cand_steps]
-    ok = order == ["candidates_generator", "apply_deme_filters", "apply_tree_filters"]
-    name = cand_steps[0][0] if cand_steps else "?"
-    def fed_from(arg_call, prev_name):
-        """the step's first argument is the previous step's result, possibly with the candidate-less parents dropped in between"""
-        a = [norm(x) for x in arg_call.args]
-        if a == [prev_name, tree_p]:
-            return True
-        if len(arg_call.args) == 2 and isinstance(arg_call.args[0], ast.Name) and norm(arg_call.args[1]) == tree_p:
-            gd = local_defs(gs).get(arg_call.args[0].id, [])
-            return any(isinstance(d, ast.DictComp) and len(d.generators) == 1 and canon(d.generators[0].iter).removesuffix(".keys()") == prev_name and isinstance(d.generators[0].target, ast.Name) and canon(d.value) == f"{prev_name}[{d.generators[0].target.id}]" for d in gd)
-        return False
-
-    threaded = ok and fed_from(cand_steps[1][1], cand_steps[0][0]) and fed_from(cand_steps[2][1], cand_steps[1][0])
-    if ok and threaded:
-        name = cand_steps[2][0]
-        st_chain = OK
-    elif sorted(order) == sorted(["candidates_generator", "apply_deme_filters", "apply_tree_filters"]) or (len(order) == 3 and ok):
-        st_chain = VIOLATION  # all three steps are there, but in another order / not fed with the previous result
-    elif "apply_tree_filters" not in {norm(c.func).split(".")[-1] for c in body_walk(gs.node) if isinstance(c, ast.Call)}:
-        st_chain = VIOLATION  # the tree-level filters are not applied at all
-    else:
-        st_chain = INCONCLUSIVE
-    obs.append(ctx.ob("C08.O3", gs, cand_steps[-1][2] if cand_steps else gs.node, status=st_chain, detail="generator -> deme filters -> tree filters, each fed with the previous result" if st_chain == OK else f"get_seeds applies {order} (tree-level filters must run last on the deme-filtered candidates)", construct="chain-order"))
-    # nothing reassigns the candidates between the tree filters and the return
-    rets = [r for r in body_walk(gs.node) if isinstance(r, ast.Return)]
-    last_idx = gs.node.body.index(cand_steps[-1][2]) if (cand_steps and cand_steps[-1][2] in gs.node.body) else -1
-    tail = gs.node.body[last_idx + 1:] if st_chain == OK else []
+    # provenance of every local through the statements of get_seeds: the sequence of stages applied to the generator's output
+    # ('gen', 'deme' = every deme-level filter in order, 'tree' = every tree-level filter in order, 'drop' = parents left without
+    # candidates removed).  Recording calls (history appends of deep copies) do not change a value.
+    prov: dict[str, list] = {}
+    unknown = []  # statements that touch a tracked value in a way the rule does not follow
+    mutated = []  # positive evidence: the tracked mapping is changed in place
 
     def drop_empty_of(e, src):
-        """e is `src` itself or {k: src[k] for k in src.keys() if src[k].individuals}"""
-        if isinstance(e, ast.Name) and e.id == src:
-            return True
+        """e is {k: src[k] for k in src.keys() if src[k].individuals} (or dict(...) of it)"""
         if isinstance(e, ast.Call) and norm(e.func) == "dict" and len(e.args) == 1 and not e.keywords:
             return drop_empty_of(e.args[0], src)
         if isinstance(e, ast.DictComp) and len(e.generators) == 1:
@@ -107,39 +77,81 @@ def o3(ctx: Ctx):
                     return all(any(cond_is(c, w) for w in (lst, f"len({lst}) > 0", f"len({lst}) != 0", f"{lst} != []")) for c in g.ifs)
         return False
 
-    cur = name
-    st_ret = OK
-    why_ret = ""
-    for stt in tail:
-        if isinstance(stt, ast.Return):
-            if stt.value is None or not drop_empty_of(stt.value, cur):
-                st_ret = VIOLATION if stt.value is None else INCONCLUSIVE
-                why_ret = f"returns `{norm(stt.value)[:70] if stt.value is not None else 'nothing'}`"
-            break
-        if isinstance(stt, ast.Assign) and len(stt.targets) == 1 and isinstance(stt.targets[0], ast.Name):
-            if drop_empty_of(stt.value, cur):
-                cur = stt.targets[0].id
+    def value_prov(v):
+        """provenance of an expression, or None (untracked), or '?' (tracked but not understood)"""
+        if isinstance(v, ast.Name):
+            return list(prov[v.id]) if v.id in prov else None
+        if isinstance(v, ast.Call):
+            fn = norm(v.func)
+            if fn == f"{sn}.candidates_generator" and [norm(a) for a in v.args] == [tree_p]:
+                return ["gen"]
+            for meth, tag in ((f"{sn}.apply_deme_filters", "deme"), (f"{sn}.apply_tree_filters", "tree")):
+                if fn == meth and len(v.args) == 2 and norm(v.args[1]) == tree_p:
+                    inner = value_prov(v.args[0])
+                    return "?" if inner in (None, "?") else inner + [tag]
+        if isinstance(v, ast.Call) and norm(v.func) in ("dict", "copy.copy") and len(v.args) == 1 and not v.keywords and isinstance(v.args[0], ast.Name) and v.args[0].id in prov:
+            return list(prov[v.args[0].id])  # a shallow copy of the mapping: same parents, same candidate lists
+        for nm in list(prov):
+            if drop_empty_of(v, nm):
+                return prov[nm] + ["drop"]
+        if any(isinstance(x, ast.Name) and x.id in prov for x in ast.walk(v)) and not (isinstance(v, ast.Call) and norm(v.func) in ("copy.deepcopy", "deepcopy", "len", "list", "sorted")):
+            return "?"
+        return None
+
+    def run_block(stmts):
+        for st in stmts:
+            if isinstance(st, (ast.Assign, ast.AnnAssign)) and isinstance(st.targets[0] if isinstance(st, ast.Assign) else st.target, ast.Name) and getattr(st, "value", None) is not None:
+                tn = (st.targets[0] if isinstance(st, ast.Assign) else st.target).id
+                pv = value_prov(st.value)
+                if pv == "?":
+                    unknown.append(st)
+                    prov.pop(tn, None)
+                elif pv is None:
+                    prov.pop(tn, None)
+                else:
+                    prov[tn] = pv
                 continue
-            if stt.targets[0].id == cur:
-                st_ret, why_ret = INCONCLUSIVE, f"`{norm(stt)[:70]}` rebinds the filtered candidates"
-                break
-            continue
-        # mutation of the filtered mapping (item stores / deletes / attribute stores through it / mutating calls on it)
-        mut = None
-        for x in ast.walk(stt):
-            if isinstance(x, (ast.Assign, ast.AugAssign, ast.Delete)):
-                for tt in (x.targets if isinstance(x, (ast.Assign, ast.Delete)) else [x.target]):
-                    if isinstance(tt, (ast.Subscript, ast.Attribute)) and cur in {y.id for y in ast.walk(tt) if isinstance(y, ast.Name)}:
-                        mut = x
-            if isinstance(x, ast.Call) and isinstance(x.func, ast.Attribute) and x.func.attr in ("pop", "popitem", "clear", "update", "setdefault", "append", "extend", "insert", "remove") and cur in {y.id for y in ast.walk(x.func.value) if isinstance(y, ast.Name)}:
-                mut = x
-        if mut is not None:
-            st_ret, why_ret = VIOLATION, f"`{norm(mut)[:70]}` changes the candidates after the tree-level filters ran"
-            break
+            if isinstance(st, ast.For) and not st.orelse and isinstance(st.target, ast.Name) and len(st.body) == 1 and isinstance(st.body[0], ast.Assign) and len(st.body[0].targets) == 1 and isinstance(st.body[0].targets[0], ast.Name):
+                # for flt in self.<chain>: x = flt(x, tree)
+                it = canon(st.iter)
+                b0 = st.body[0]
+                x = b0.targets[0].id
+                tag = {f"{sn}.deme_filter_chain": "deme", f"{sn}.tree_filter_chain": "tree"}.get(it)
+                if tag and x in prov and isinstance(b0.value, ast.Call) and norm(b0.value.func) in (st.target.id, f"{st.target.id}.__call__") and [norm(a) for a in b0.value.args] == [x, tree_p]:
+                    prov[x] = prov[x] + [tag]
+                    continue
+            if isinstance(st, ast.Return):
+                continue
+            # anything else: recording calls are fine, in-place changes of a tracked mapping are positive evidence
+            for x in ast.walk(st):
+                if isinstance(x, (ast.Assign, ast.AugAssign, ast.Delete)):
+                    for tt in (x.targets if isinstance(x, (ast.Assign, ast.Delete)) else [x.target]):
+                        if isinstance(tt, (ast.Subscript, ast.Attribute)) and any(isinstance(y, ast.Name) and y.id in prov for y in ast.walk(tt)):
+                            mutated.append(x)
+                if isinstance(x, ast.Call) and isinstance(x.func, ast.Attribute) and x.func.attr in ("pop", "popitem", "clear", "update", "setdefault", "remove") and any(isinstance(y, ast.Name) and y.id in prov for y in ast.walk(x.func.value)):
+                    mutated.append(x)
+            if isinstance(st, (ast.For, ast.While, ast.If, ast.With, ast.Try)) and any(isinstance(y, ast.Name) and isinstance(y.ctx, ast.Store) and y.id in prov for y in ast.walk(st)):
+                unknown.append(st)
+
+    run_block(gs.node.body)
+    rets = [r for r in body_walk(gs.node) if isinstance(r, ast.Return)]
+    rp = value_prov(rets[0].value) if len(rets) == 1 and rets[0].value is not None else "?"
+    core = [t for t in rp if t != "drop"] if isinstance(rp, list) else rp
+    order = core if isinstance(core, list) else []
+    if core == ["gen", "deme", "tree"] and not unknown:
+        st_chain = OK
+    elif isinstance(core, list) and core and core[0] == "gen" and not unknown and core != ["gen", "deme", "tree"]:
+        st_chain = VIOLATION  # understood, and not generator -> deme filters -> tree filters
     else:
-        if st_chain == OK:
-            st_ret, why_ret = VIOLATION, "get_seeds does not return the filtered candidates"
-    if st_chain != OK:
+        st_chain = INCONCLUSIVE
+    obs.append(ctx.ob("C08.O3", gs, rets[0] if rets else gs.node, status=st_chain, detail="generator -> deme filters -> tree filters, each fed with the previous result" if st_chain == OK else f"get_seeds returns a value that went through {order or '?'} (tree-level filters must run last on the deme-filtered candidates)", construct="chain-order"))
+    if mutated:
+        st_ret, why_ret = VIOLATION, f"`{norm(mutated[0])[:70]}` changes the candidates in place"
+    elif st_chain == OK:
+        st_ret, why_ret = OK, ""
+    elif len(rets) == 1 and rets[0].value is None:
+        st_ret, why_ret = VIOLATION, "returns nothing"
+    else:
         st_ret, why_ret = INCONCLUSIVE, "filter chain not recognised"
     obs.append(ctx.ob("C08.O3", gs, rets[0] if rets else gs.node, status=st_ret, detail="returns the filtered candidates, dropping only parents left without candidates" if st_ret == OK else f"get_seeds changes the candidates after the tree-level filters ran (or returns something else): {why_ret}", construct="return"))
     # apply_tree_filters applies every filter of the chain in order, feeding each the previous result
